@@ -9,7 +9,7 @@ P = {
     "streams": [{
         "name": "routes", "pkg": "./internal/rules", "test": "TestVerifC03",
         "overlay": {"internal/rules/zz_verif_c03_test.go": "c03/c03_test.go"},
-        "eval_module": "Run.Eval_C03", "check_term": "check",
+        "eval_module": "Run.Eval_C03", "check_term": "check false false",
         "n_quick": 1200, "n_thorough": 30000, "shard": 100,
         "findings": {1: "C03-F1", 2: "C03-F2", 3: "C03-F3", 4: "C03-F4", 5: "C03-F5", 6: "C03-F6", 7: "C03-F7", 8: "C03-F8"},
     }],
